@@ -357,9 +357,32 @@ static void op_dec(int tagonly)
         mp = (outlen == 0 && kvi("mnull", 0)) ? NULL : m.p; cp = c.p;
         gro(&k); gro(&n); gro(&ad); gro(&c);
     }
+    /* lay=: the caller keeps several of the arguments in one arena, touching but not overlapping
+     *   1  [nonce][ad][packet], decrypted in place (the usual datagram layout)
+     *   2  [ad][output], packet elsewhere          3  [output][nonce], packet elsewhere
+     *   4  a zero-length ad whose pointer is the output pointer                                  */
+    int lay = (adj || (alias && kvi("lay", 0) != 1)) ? 0 : (int)kvi("lay", 0);
+    const unsigned char *np = n.p, *adp = gptr(&ad);
+    gbuf arena; memset(&arena, 0, sizeof(arena));
+    if (lay == 4 && ad.len != 0) lay = 0;
+    if (lay == 1) {
+        galloc(&arena, "arena", 12 + ad.len + c.len, g_place, 0);
+        memcpy(arena.p, n.p, 12); if (ad.len) memcpy(arena.p + 12, ad.p, ad.len); memcpy(arena.p + 12 + ad.len, c.p, c.len);
+        np = arena.p; adp = arena.p + 12; mp = arena.p + 12 + ad.len; cp = mp; alias = 1;
+    } else if (lay == 2) {
+        galloc(&arena, "arena", ad.len + outlen, g_place, 0);
+        if (ad.len) memcpy(arena.p, ad.p, ad.len); memset(arena.p + ad.len, pf, outlen);
+        adp = arena.p; mp = arena.p + ad.len;
+    } else if (lay == 3) {
+        galloc(&arena, "arena", outlen + 12, g_place, 0);
+        memset(arena.p, pf, outlen); memcpy(arena.p + outlen, n.p, 12);
+        mp = arena.p; np = arena.p + outlen;
+    } else if (lay == 4) {
+        adp = mp;
+    }
     long vg0 = VG_ERRORS();
     SECRET(k.p, k.len);
-    res = get_dec(mode, v)(mp, &mlen, cp, c.len, gptr(&ad), ad.len, n.p, k.p);
+    res = get_dec(mode, v)(mp, &mlen, cp, c.len, adp, ad.len, np, k.p);
     PUBLIC(k.p, k.len); PUBLIC(&res, sizeof(res)); PUBLIC(&mlen, sizeof(mlen));
     if (mp) PUBLIC(mp, outlen);
     PUBLIC(c.p, c.len);
@@ -369,7 +392,14 @@ static void op_dec(int tagonly)
     if (!alias) inmod |= !inputs_same(&c, ccopy);
     else if (c.len >= 8) inmod |= (memcmp(c.p + outlen, ccopy + outlen, 8) != 0);  /* tag bytes stay */
     int untouched = 1;
-    if (adj && !alias) {
+    if (lay == 1) {
+        inmod = !(inputs_same(&k, kcopy)) || memcmp(arena.p, ncopy, 12) || memcmp(arena.p + 12, adcopy, ad.len)
+                || (c.len >= 8 && memcmp(mp + outlen, ccopy + outlen, 8));
+        untouched = !memcmp(mp, ccopy, c.len);
+    } else if (lay == 2 || lay == 3) {
+        inmod |= (lay == 2) ? (memcmp(arena.p, adcopy, ad.len) != 0) : (memcmp(arena.p + outlen, ncopy, 12) != 0);
+        for (size_t i = 0; i < outlen; i++) if (mp[i] != pf) untouched = 0;
+    } else if (adj && !alias) {
         inmod |= (memcmp(cp, ccopy, c.len) != 0);
         for (size_t i = 0; i < outlen; i++) if (mp[i] != pf) untouched = 0;
     } else if (alias) untouched = !memcmp(c.p, ccopy, c.len);
@@ -385,11 +415,12 @@ static void op_dec(int tagonly)
     jint("mlen", mlen == (size_t)-1 ? -1 : (long)mlen);
     jbytes("mout", mp ? mp : m.p, outlen);
     jint("untouched", untouched); jint("alias", alias); jint("inmod", inmod);
-    jint("canary", gcanary(&c) && gcanary(&m) && gcanary(&ad) && gcanary(&k) && gcanary(&n) && gcanary(&both));
-    jint("taint", vgerr); jint("adj", adj);
+    jint("canary", gcanary(&c) && gcanary(&m) && gcanary(&ad) && gcanary(&k) && gcanary(&n) && gcanary(&both) && gcanary(&arena));
+    jint("taint", vgerr); jint("adj", adj); jint("lay", lay);
     jend();
     free(ccopy); free(adcopy); free(kcopy); free(ncopy);
     if (both.map) gfree(&both);
+    if (arena.map) gfree(&arena);
     gfree(&k); gfree(&n); gfree(&ad); gfree(&c); gfree(&m);
 }
 
